@@ -16,6 +16,7 @@ where
 }
 
 fn len_err(e: &LenError) -> String {
+    crate::util::touch(e);
     format!(
         "err(len(req={},len={},src={:?},layer={:?},off={}))",
         e.required_len, e.len, e.len_source, e.layer, e.layer_start_offset
@@ -43,9 +44,13 @@ fn arr<const N: usize>(s: &str) -> Option<[u8; N]> {
 }
 
 macro_rules! bounded {
-    ($r:expr) => {
+    ($r:expr, $t:ty) => {
         match $r {
-            Ok(v) => format!("ok({})", v.value()),
+            Ok(v) => {
+                // the conversion back to the primitive, Display and Debug say the same number as value()
+                let bad = <$t>::from(v) != v.value() || format!("{}", v) != format!("{}", v.value()) || format!("{:?}", v).is_empty() || v != v.clone();
+                format!("ok({}){}", v.value(), if bad { "!accessor-mismatch" } else { "" })
+            }
             Err(e) => too_big(&e),
         }
     };
@@ -53,37 +58,37 @@ macro_rules! bounded {
 
 fn ecn_res(r: Result<IpEcn, ValueTooBigError<u8>>) -> String {
     match r {
-        Ok(v) => format!("ok({},{:?})", v.value(), v),
+        Ok(v) => format!("ok({},{:?}){}", v.value(), v, if u8::from(v) != v.value() || format!("{}", v) != format!("{}", v.value()) { "!accessor-mismatch" } else { "" }),
         Err(e) => too_big(&e),
     }
 }
 
 fn try_new(t: &str, v: &str) -> Option<String> {
     Some(match t {
-        "vlan_id" => bounded!(VlanId::try_new(num(v)?)),
-        "vlan_pcp" => bounded!(VlanPcp::try_new(num(v)?)),
-        "dscp" => bounded!(IpDscp::try_new(num(v)?)),
+        "vlan_id" => bounded!(VlanId::try_new(num(v)?), u16),
+        "vlan_pcp" => bounded!(VlanPcp::try_new(num(v)?), u8),
+        "dscp" => bounded!(IpDscp::try_new(num(v)?), u8),
         "ecn" => ecn_res(IpEcn::try_new(num(v)?)),
-        "frag_off" => bounded!(IpFragOffset::try_new(num(v)?)),
-        "flow_label" => bounded!(Ipv6FlowLabel::try_new(num(v)?)),
-        "macsec_an" => bounded!(MacsecAn::try_new(num(v)?)),
-        "macsec_sl" => bounded!(MacsecShortLen::try_from_u8(num(v)?)),
-        "qrv" => bounded!(Qrv::try_new(num(v)?)),
+        "frag_off" => bounded!(IpFragOffset::try_new(num(v)?), u16),
+        "flow_label" => bounded!(Ipv6FlowLabel::try_new(num(v)?), u32),
+        "macsec_an" => bounded!(MacsecAn::try_new(num(v)?), u8),
+        "macsec_sl" => bounded!(MacsecShortLen::try_from_u8(num(v)?), u8),
+        "qrv" => bounded!(Qrv::try_new(num(v)?), u8),
         _ => return None,
     })
 }
 
 fn try_from(t: &str, v: &str) -> Option<String> {
     Some(match t {
-        "vlan_id" => bounded!(VlanId::try_from(num::<u16>(v)?)),
-        "vlan_pcp" => bounded!(VlanPcp::try_from(num::<u8>(v)?)),
-        "dscp" => bounded!(IpDscp::try_from(num::<u8>(v)?)),
+        "vlan_id" => bounded!(VlanId::try_from(num::<u16>(v)?), u16),
+        "vlan_pcp" => bounded!(VlanPcp::try_from(num::<u8>(v)?), u8),
+        "dscp" => bounded!(IpDscp::try_from(num::<u8>(v)?), u8),
         "ecn" => ecn_res(IpEcn::try_from(num::<u8>(v)?)),
-        "frag_off" => bounded!(IpFragOffset::try_from(num::<u16>(v)?)),
-        "flow_label" => bounded!(Ipv6FlowLabel::try_from(num::<u32>(v)?)),
-        "macsec_an" => bounded!(MacsecAn::try_from(num::<u8>(v)?)),
-        "macsec_sl" => bounded!(MacsecShortLen::try_from(num::<u8>(v)?)),
-        "qrv" => bounded!(Qrv::try_from(num::<u8>(v)?)),
+        "frag_off" => bounded!(IpFragOffset::try_from(num::<u16>(v)?), u16),
+        "flow_label" => bounded!(Ipv6FlowLabel::try_from(num::<u32>(v)?), u32),
+        "macsec_an" => bounded!(MacsecAn::try_from(num::<u8>(v)?), u8),
+        "macsec_sl" => bounded!(MacsecShortLen::try_from(num::<u8>(v)?), u8),
+        "qrv" => bounded!(Qrv::try_from(num::<u8>(v)?), u8),
         _ => return None,
     })
 }
